@@ -439,6 +439,15 @@ struct RegexEval {
     tags: Vec<String>,
 }
 
+/// The two open findings about the clean-up passes have known root causes, and only expressions that can reach
+/// them keep the finding's class: a `]` that another `]` follows (escape_misused_character_class) or a `<<<<` written
+/// by the user (the restore pass of escape_misused_repetition_quantifier). A change of meaning of any other
+/// expression is a different violation and gets a class of its own.
+fn cleanup_class(base: &str, text: &str) -> String {
+    let known_root_cause = text.matches(']').count() >= 2 || text.contains("<<<<");
+    if known_root_cause { base.to_string() } else { format!("{base}-elsewhere") }
+}
+
 /// the real `regex` rule for `text` on `lines` (complete byte strings incl. newlines), and the oracle
 fn regex_eval(mk: &ExpectationMaker, text: &str, lines: &[Vec<u8>]) -> Result<RegexEval, String> {
     let exp = match guarded(|| mk.parse(&format!("{text} (regex)"))) {
@@ -505,7 +514,7 @@ fn regex_eval(mk: &ExpectationMaker, text: &str, lines: &[Vec<u8>]) -> Result<Re
                 } else if cleanup_fails < 2 {
                     cleanup_fails += 1;
                     fails.push((
-                        "C04:regex-cleanup-changes-valid-regex".to_string(),
+                        cleanup_class("C04:regex-cleanup-changes-valid-regex", text),
                         format!("{text:?} is a valid regex of the regex crate and {} the line {:?}, but the rule compiles {cleaned:?} and says {b}", if want { "matches" } else { "does not match" }, String::from_utf8_lossy(l)),
                     ));
                 }
@@ -582,7 +591,7 @@ fn regex_oracle_only(prop: &str, mk: &ExpectationMaker, op: String, text: &str, 
             let mut fails = vec![];
             if e == "parse-error" && whole_line_oracle(text).is_some() {
                 tags.push("regex:valid-regex-rejected".into());
-                fails.push(("C04:regex-valid-regex-rejected".to_string(), format!("{text:?} is a valid regex of the regex crate but `{text} (regex)` does not parse")));
+                fails.push((cleanup_class("C04:regex-valid-regex-rejected", text), format!("{text:?} is a valid regex of the regex crate but `{text} (regex)` does not parse")));
             }
             CaseRec { op, impl_out: "oracle-only".into(), oracle_fail: keep(prop, fails), nontrivial: false, tags }
         }
@@ -827,6 +836,20 @@ pub fn run(ctx: &Ctx, prop: &str) {
         let mid = &mids[(idx / 2) as usize];
         let text = format!("{pre}<<<<{mid}>>>>");
         let lines: Vec<Vec<u8>> = [text.clone(), pre.to_string(), format!("{pre}{pre}"), format!("{pre}{mid}"), format!("{pre}{{{mid}}}")].into_iter().map(|l| l.into_bytes()).collect();
+        let hexlines: Vec<String> = lines.iter().map(|l| hex(l)).collect();
+        let op = format!("oracle-only rx {} {}", hex(text.as_bytes()), hexlines.join(","));
+        Some(regex_oracle_only(prop, &dmk, op, &text, &lines))
+    });
+    // repetition quantifiers as the regex crate reads them: a{X} and ba{X}c for every X over {1 2 ,} up to length 3
+    // ({1} {1,2} {1,} are quantifiers; {,1} {2,1} {,} are not valid there and say nothing)
+    let qs = words(&['1', '2', ','], 3);
+    ctx.run_stream("regex-quantifier-oracle-exhaustive", (qs.len() * 2) as u64, true, |idx| {
+        let q = &qs[(idx / 2) as usize];
+        let (pre, suf) = if idx % 2 == 0 { ("", "") } else { ("b", "c") };
+        let text = format!("{pre}a{{{q}}}{suf}");
+        let mut lines: Vec<Vec<u8>> = (0..=5).map(|k| format!("{pre}{}{suf}", "a".repeat(k)).into_bytes()).collect();
+        lines.push(text.clone().into_bytes());
+        lines.push(format!("{pre}a{q}{suf}").into_bytes());
         let hexlines: Vec<String> = lines.iter().map(|l| hex(l)).collect();
         let op = format!("oracle-only rx {} {}", hex(text.as_bytes()), hexlines.join(","));
         Some(regex_oracle_only(prop, &dmk, op, &text, &lines))
